@@ -13,3 +13,4 @@ import SnowProofs.Props.GenTie.Flake
 import SnowProofs.Props.GenTie.Snowing1D
 import SnowProofs.Props.GenTie.Evap
 import SnowProofs.Props.GenTie.Snowing2D
+import SnowProofs.Props.GenTie.OpCond
